@@ -42,6 +42,8 @@ type Options struct {
 	LogHB      bool // log heartbeat exchanges that do not change state
 	NoSnapRestoreOnStart bool
 	Family     string
+	LeaseCheck bool // evaluate the C13 step-down bound on this run (fine ticks only)
+	ExpectStable bool // fault-free run: leadership must never change
 }
 
 func DefaultOptions(seed int64) Options {
@@ -73,6 +75,8 @@ type Node struct {
 	everStarted bool
 	handledIDs []int // RPCs this node handled during the current step
 	handledClean bool
+	userRestoreActive bool
+	graceful bool // last stop was a graceful Shutdown()
 }
 
 // ClientOp is one API call made by a simulated client.
@@ -85,6 +89,8 @@ type ClientOp struct {
 	Err   string
 	Index uint64
 	Resp  string
+	fut   raft.Future
+	inc   *Incarnation
 }
 
 // Cluster is a set of real raft.Raft nodes wired to harness-owned collaborators.
@@ -104,6 +110,7 @@ type Cluster struct {
 	handling map[int]handlingInfo
 	Steps int
 	hookMu sync.Mutex
+	autoConsume bool
 }
 
 type handlingInfo struct{ pre string }
@@ -133,11 +140,25 @@ func (c *Cluster) onHook(name string, args ...interface{}) {
 	// the hook runs on the main goroutine of some node; identify it by goroutine-free means: args only
 	kv := M{"name": name}
 	var xs []any
-	for _, a := range args {
+	node := ""
+	for i, a := range args {
+		if i == 0 {
+			if sv, ok := a.(string); ok {
+				node = sv
+			}
+		}
 		xs = append(xs, a)
 	}
 	kv["args"] = xs
-	c.Tr.Emit("hook", "", kv)
+	if n := c.byID[node]; n != nil && n.inc != nil {
+		n.inc.mu.Lock()
+		d := n.inc.dead
+		n.inc.mu.Unlock()
+		if d {
+			return
+		}
+	}
+	c.Tr.Emit("hook", node, kv)
 }
 
 // cfgStr canonical string for a configuration, registered in the table.
@@ -266,6 +287,9 @@ func (c *Cluster) Start(id string) (ok bool) {
 		fsm = &SimFSMCfg{n.FSM}
 	}
 	n.Trans = c.Net.newTransport(id, n.incN)
+	if c.Opt.NotifyBuf >= 0 {
+		n.Notify = make(chan bool, c.Opt.NotifyBuf) // a new process has a new channel
+	}
 	conf := c.raftConfig(id)
 	if n.Notify != nil {
 		conf.NotifyCh = n.Notify
@@ -325,6 +349,7 @@ func (c *Cluster) Start(id string) (ok bool) {
 	})
 	r.RegisterObserver(obs)
 	n.Up = true
+	n.graceful = false
 	n.everStarted = true
 	n.lastSt = ""
 	c.emitState("started", n, true)
@@ -384,6 +409,9 @@ func (c *Cluster) Shutdown(id string) {
 	}
 	r := n.Raft
 	c.Tr.Emit("shutdown", n.ID, M{"inc": n.incN})
+	n.inc.mu.Lock()
+	n.inc.graceful = true
+	n.inc.mu.Unlock()
 	n.inc.Unpark()
 	go func() { _ = r.Shutdown().Error() }()
 	synctest.Wait()
@@ -395,6 +423,7 @@ func (c *Cluster) Shutdown(id string) {
 	synctest.Wait()
 	c.Tr.Emit("down", n.ID, M{"inc": n.incN, "st": c.project(n, true)})
 	n.lastSt = ""
+	n.graceful = true
 }
 
 func (n *Net) failAllFrom(id string, inc int) {
@@ -610,8 +639,6 @@ func respJSON(kind string, resp any) M {
 	return M{}
 }
 
-// noteHandling is called just before an RPC is handed to its target.
-func (c *Cluster) noteHandling(r *Rpc) {}
 
 // onHandled runs on the waiter goroutine right after the target responded:
 // the handler step is complete, its effects are visible, nobody else has run.
@@ -651,7 +678,8 @@ func (c *Cluster) Header() M {
 	return M{"ev": "reset", "family": c.Opt.Family, "seed": c.Opt.Seed, "servers": c.Opt.Servers, "cfgtab": tab,
 		"params": M{"maxappend": c.Opt.MaxAppend, "trailing": c.Opt.Trailing, "mono": c.Opt.Mono, "ct": c.Opt.CommitTrack,
 			"hb_us": int64(c.Opt.Heartbeat / time.Microsecond), "el_us": int64(c.Opt.Election / time.Microsecond), "lease_us": int64(c.Opt.Lease / time.Microsecond),
-			"prevote": !c.Opt.PreVoteOff, "batchfsm": c.Opt.BatchFSM, "cfgstore": c.Opt.CfgStoreFSM}}
+			"prevote": !c.Opt.PreVoteOff, "batchfsm": c.Opt.BatchFSM, "cfgstore": c.Opt.CfgStoreFSM,
+			"norestore": c.Opt.NoSnapRestoreOnStart, "leasecheck": c.Opt.LeaseCheck}}
 }
 
 // Finish shuts everything down so the bubble can end, and writes the header.
@@ -670,6 +698,11 @@ func (c *Cluster) Finish() {
 		}
 	}
 	synctest.Wait()
+	// give every timer-based path a chance (1000 election timeouts of virtual time), then
+	// whatever is still unresolved is stranded for ever
+	time.Sleep(1000 * c.Opt.Election)
+	synctest.Wait()
+	c.ResolveStranded()
 	c.Tr.Emit("end", "", nil)
 	c.Tr.PrependHeader(c.Header())
 	raft.VerifSetHook(nil)
